@@ -245,7 +245,17 @@ pub fn create_and_read_back(work: &Work, report: &mut BodyReport) {
                     report.complaints.push(format!("content {i} (id {id}): size {} instead of {}", region.size().into_u64(), c.bytes.len()));
                     continue;
                 }
-                match simcore::dump::read_region(&region) {
+                // every third content through get_slice (one call for the whole range), the others
+                // through stream()
+                let got = if i % 3 == 2 {
+                    region
+                        .get_slice(jubako::Offset::zero(), c.bytes.len())
+                        .map(|s| s.to_vec())
+                        .map_err(|e| simcore::dump::err_class(&e))
+                } else {
+                    simcore::dump::read_region(&region)
+                };
+                match got {
                     Ok(b) if b == **c.bytes => {}
                     Ok(b) => report.complaints.push(format!(
                         "content {i} (id {id}, {} bytes, hint {:?}, src {:?}): wrong bytes (starts {:?})",
